@@ -828,6 +828,10 @@ def role_of(f):
         return None
     if name in ('operator bool', 'operator*', 'operator->', 'get'):
         return 'reader'
+    ps = f.get('params', [])
+    if len(ps) == 1 and handle_type(ps[0]['ct']) == f.get('rect') and ps[0]['ct'].rstrip().endswith('&') and \
+            not ps[0]['ct'].rstrip().endswith('&&') and not ps[0]['ct'].strip().startswith('const ') and f['fty'].startswith('void '):
+        return 'exchange'     # void member(IntrusivePtr &): decided as an exchange of the two pointees (swap); anything else is undecided
     return None
 
 
@@ -1032,13 +1036,24 @@ def post(role, f, env, d0, d, rv, handles):
     # a handle that lives inside a pointee (scenario `$in:<handle>`) must not end up pointing at that very pointee: the object
     # would hold a count on itself that nobody can ever release (head = std::move(head->next) implemented as a pointer swap)
     for k, owner in d0.items():
-        if k.startswith('$in:') and not k.startswith('$in:v:'):
+        if k.startswith('$in:') and not k.startswith('$in:v:') and role != 'exchange':     # (for an exchange it is the requested result)
             h = k[len('$in:'):]
             if d.get(h) == owner and d0.get(h) != owner and not d.get('!' + owner):
                 out.append(('self-cycle', 'at exit the handle `%s`, which is stored inside pointee %s (e.g. head->next in head = std::move(head->next)), '
                             'points at %s itself: the object now holds a count on itself, no release can ever bring its count to zero and it '
                             'is never destroyed (the old pointee must be released by this operation, not parked in the source); events %s'
                             % (h, owner, owner, list(d.get('$ev', ())))))
+    if role == 'exchange':
+        h = env[f['params'][0]['id']]
+        if d.get('$ev'):
+            out.append(('undecided', 'a member taking another handle by reference changes counts: not an exchange of pointees (events %s)'
+                        % (list(d['$ev']),)))
+        elif h == 'this':
+            if d.get('this') != d0.get('this'):
+                out.append(('undecided', 'member(IntrusivePtr &) applied to itself changes the handle'))
+        elif d.get('this') != d0.get(h) or d.get(h) != d0.get('this'):
+            out.append(('undecided', 'member(IntrusivePtr &) without count changes that does not exchange the two pointees (this: %s -> %s, '
+                        '%s: %s -> %s)' % (d0.get('this'), d.get('this'), h, d0.get(h), d.get(h))))
     tv = d.get('this')
     if role == 'default-ctor':
         if tv != 'null':
